@@ -52,6 +52,11 @@ def configs(tier):
                             out.append({'kind': 'call', 'n': n, 'm': m, 'nreq': nreq, 'cnt': cnt,
                                         'chunks': chunks, 'subset': subset,
                                         'tdtype': 'uint64' if (n + m) % 2 else 'int64'})
+    # two calls on one selector (a per-cluster cache must not leak the first call's restriction)
+    for n in (1, 2):
+        for f1, f2 in ((True, False), (False, True)):
+            out.append({'kind': 'call', 'n': n, 'm': 3, 'nreq': 1, 'cnt': 'none', 'chunks': f2, 'subset': False,
+                        'tdtype': 'int64', 'first_flag': f1})
     return out
 
 
@@ -123,7 +128,7 @@ def run_config(cfg, e):
             subsel = [e.bool('sub%d' % i) for i in range(n)]
         e.case_builder = lambda ev: {'kind': kind, 'grid': ev(grid), 'k': ev(k), 'ts': ev(ts), 'cl': ev(cl),
                                      'req': ev(req), 'cnt': None if cnt is None else ev(cnt),
-                                     'chunks': cfg['chunks'], 'tdtype': cfg['tdtype'],
+                                     'chunks': cfg['chunks'], 'tdtype': cfg['tdtype'], 'first_flag': cfg.get('first_flag'),
                                      'subset': None if subsel is None else [i for i in range(n) if ev(subsel[i])]}
         times = snp.ndarray(snp._fromlist(ts, (n,)), cfg['tdtype'])
         clusters = snp.ndarray(snp._fromlist(cl, (n,)), 'int32')
@@ -135,6 +140,8 @@ def run_config(cfg, e):
             ss = arr.SpikeSelector(
                 get_spikes_per_cluster=lambda c: spt.get(c, snp.asarray(np.array([], dtype=np.int64))),
                 spike_times=times, chunk_bounds=list(grid), n_chunks_kept=k)
+            if cfg.get('first_flag') is not None:
+                ss(cnt, list(req), subset_chunks=cfg['first_flag'], subset_spikes=sub)
             out = ss(cnt, list(req), subset_chunks=cfg['chunks'], subset_spikes=sub)
             out = [int(v) for v in snp.asarray(out).a.tolist()]
             kept = snp.asarray(ss.chunks_kept).a.tolist()
@@ -204,6 +211,8 @@ def replay(case):
             ss = arr.SpikeSelector(
                 get_spikes_per_cluster=lambda c: spt.get(c, np.array([], dtype=np.int64)),
                 spike_times=times, chunk_bounds=grid, n_chunks_kept=k)
+            if case.get('first_flag') is not None:
+                ss(cnt, list(req), subset_chunks=case['first_flag'], subset_spikes=sub)
             out = ss(cnt, list(req), subset_chunks=case['chunks'], subset_spikes=sub)
         except Exception as ex:
             return 'raised %r' % (ex,)
